@@ -114,8 +114,7 @@ def make_dataset(shape, kinds, values, errors, name='ds', layout='C', vdtype=Non
         return Dataset(vtype.type(values[0]), np.float64(errors[0]), name=name, what='w')
     val = np.array(values, dtype=vtype).reshape(shape)
     err = np.array(errors, dtype=float).reshape(shape)
-    if layout == 'F':
-        val, err = np.asfortranarray(val), np.asfortranarray(err)
+    val, err = dsutil.relayout(val, layout), dsutil.relayout(err, layout)
     bins = dsutil.make_bins(shape, kinds) if kinds else None
     return Dataset(val, err, bins=bins, name=name, what='w')
 
